@@ -51,6 +51,8 @@ IsIntText(t) ==
    /\ LET z == StripZeros(d) IN
       \/ Len(z) < 10
       \/ Len(z) = 10 /\ LexLeq(z, MaxMag)       \* -2147483648 is left out of the domain
+\* a decimal number of any size
+IsNumText(t) == Len(Digits(t)) > 0 /\ \A k \in 1..Len(Digits(t)) : IsDigit(Digits(t)[k])
 RECURSIVE MagOf(_, _)
 MagOf(d, acc) == IF Len(d) = 0 THEN acc ELSE MagOf(Tail2(d, 2), acc * 10 + (d[1] - 48))
 IntOf(t) == LET m == MagOf(StripZeros(Digits(t)), 0) IN IF t[1] = Dash THEN 0 - m ELSE m
@@ -251,6 +253,8 @@ FoldTokens(arg, toks, k, c, filled) ==
         IF arg.kind = "tup" THEN
              (IF filled >= 3 \/ ~r.ok THEN FR(FALSE, c, filled)
               ELSE FoldTokens(arg, toks, k + 1, [c EXCEPT ![filled + 1] = r.v], filled + 1))
+        \* growing bit sets: the documentation names no largest position; numbers beyond the int range are left open
+        ELSE IF ~r.ok /\ arg.kind \in GrowBitKinds /\ ChecksOK(arg, toks[k]) /\ IsNumText(Formatted(arg.formats, 1, toks[k])) THEN FU(c, filled)
         ELSE IF ~r.ok THEN FR(FALSE, c, filled)
         ELSE IF arg.kind = "bits8" THEN
              (IF r.v < 0 \/ r.v >= 8 THEN FR(FALSE, c, filled)
